@@ -369,6 +369,36 @@ func (f *Frame) pruneForCase(cc *CaseContract) {
 	// support param.Field selectors on struct-valued params
 	if lhs.Op == "field" && lhs.Kids[0].Op == "name" {
 		pname, fname := lhs.Kids[0].Name, lhs.Name
+		// give the parameter the shape mk(..., const, ...): its field reads (also after being copied into a
+		// captured cell) then yield the constant syntactically, and the other switch arms fold away
+		for _, p := range f.fn.Params {
+			if p.Name() != pname {
+				continue
+			}
+			sT, s := derefStruct(p.Type())
+			if s == nil || isOpaqueStruct(p.Type()) {
+				continue
+			}
+			ss := f.e.sorts.structSortOf(sT, s)
+			old := f.vals[p]
+			parts := []string{}
+			for k, fld := range ss.Fields {
+				if fld.Name == fname {
+					parts = append(parts, rhs.T)
+				} else {
+					parts = append(parts, f.e.define("p."+pname+"."+fld.Name, fld.Sort, app(ss.Fields[k].Acc, old.T)))
+				}
+			}
+			t := "(" + ss.ctor() + " " + strings.Join(parts, " ") + ")"
+			if f.e.parts == nil {
+				f.e.parts = map[string][]string{}
+			}
+			f.e.parts[t] = parts
+			f.e.assume("true", eq(old.T, t))
+			nv := term(t, old.Sort, old.Type)
+			f.vals[p] = nv
+			f.params[pname] = nv
+		}
 		for _, b := range f.fn.Blocks {
 			for _, ins := range b.Instrs {
 				if fl, ok := ins.(*ssa.Field); ok {
